@@ -28,7 +28,9 @@ Bytes(t) ==
       [] t = "2147483648" -> <<"2", "1", "4", "7", "4", "8", "3", "6", "4", "8">>
       [] t = "9223372036854775807" -> <<"9", "2", "2", "3", "3", "7", "2", "0", "3", "6", "8", "5", "4", "7", "7", "5", "8", "0", "7">>
       [] t = "PING" -> <<"P", "I", "N", "G">>
-      [] OTHER -> <<t>>          \* "*", "$", "0", "1", "2", "x", "a", "CR", "LF", "SP"
+      [] t = "A1" -> <<"*", "1", "CR", "LF">>                          \* array header announcing one argument
+      [] t = "B1" -> <<"$", "1", "CR", "LF", "a", "CR", "LF">>         \* one complete bulk string "a"
+      [] OTHER -> <<t>>          \* single bytes: "*", "$", "0", "1", "2", "x", "a", "CR", "LF", "SP"
 
 Digit == [c \in {"0", "1", "2", "3", "4", "5", "6", "7", "8", "9"} |->
              CASE c = "0" -> 0 [] c = "1" -> 1 [] c = "2" -> 2 [] c = "3" -> 3 [] c = "4" -> 4
